@@ -903,7 +903,7 @@ impl AllJobsDone {
             .map_err(RedoError::opaque_error)?
             .unwrap_or(0);
         debug_jobserver!("toplevel: GOT {} tokens and {} cheats", tokens, cheats);
-        if (tokens - cheats) as i32 != self.params.top_level {
+        if tokens as i64 - cheats as i64 != i64::from(self.params.top_level) {
             return Err(RedoError::new(format!(
                 "on exit: expected {} tokens; found {}-{}",
                 self.params.top_level, tokens, cheats
